@@ -49,6 +49,11 @@ func (els *EncryptedLeaseSet) Verify() error {
 // present, otherwise constructs a key from sigType + blindedPublicKey.
 func (els *EncryptedLeaseSet) signingPublicKeyForVerification() (types.SigningPublicKey, error) {
 	if els.HasOfflineKeys() && els.offlineSignature != nil {
+		// The transient key is only authoritative once the offline signature block
+		// itself verifies under the blinded signing key.
+		if err := els.verifyOfflineSignature(); err != nil {
+			return nil, err
+		}
 		transientKeyBytes := els.offlineSignature.TransientPublicKey()
 		transientSigType := els.offlineSignature.TransientSigType()
 		spk, err := key_certificate.ConstructSigningPublicKeyByType(
@@ -66,4 +71,19 @@ func (els *EncryptedLeaseSet) signingPublicKeyForVerification() (types.SigningPu
 		return nil, oops.Errorf("failed to construct blinded signing public key: %w", err)
 	}
 	return spk, nil
+}
+
+// verifyOfflineSignature checks that the offline signature block was signed by
+// the blinded signing key. Without this check any party could attach
+// its own transient key and have structures signed with it accepted.
+func (els *EncryptedLeaseSet) verifyOfflineSignature() error {
+	identityKey := els.blindedPublicKey
+	ok, err := els.offlineSignature.VerifySignature(identityKey)
+	if err != nil {
+		return oops.Errorf("offline signature verification failed: %w", err)
+	}
+	if !ok {
+		return oops.Errorf("offline signature is not valid under the identity's signing key")
+	}
+	return nil
 }
